@@ -182,17 +182,24 @@ def adversarial(rng, secret_path):
     k = rng.randrange(18)
     L = rng.randint(1, 4)
     ids = [f'n{j}' for j in range(L)]
+    # a reference may be spelt with stray white space: whatever a phase makes of it, every phase must make the same of it
+    pad = (lambda r: rng.choice([r + ' ', ' ' + r, r + '\n', r + '\t ', r])) if rng.random() < 0.4 else (lambda r: r)
     if k == 0:   # use cycle of length L
-        body = ''.join(f'<g id="{ids[j]}"><rect width="2" height="2"/><use xlink:href="#{ids[(j + 1) % L]}"/></g>' for j in range(L))
+        body = ''.join(f'<g id="{ids[j]}"><rect width="2" height="2"/><use xlink:href="{pad("#" + ids[(j + 1) % L])}"/></g>' for j in range(L))
         return HEAD + f'<defs>{body}</defs><use xlink:href="#n0"/></svg>'
     if k == 1:   # clipPath cycle of length L
         body = ''.join(f'<clipPath id="{ids[j]}" clip-path="url(#{ids[(j + 1) % L]})"><rect width="5" height="5"/></clipPath>' for j in range(L))
         return HEAD + f'<defs>{body}</defs><rect width="9" height="9" clip-path="url(#n0)"/></svg>'
+    if k == 2 and rng.random() < 0.4:   # a gradient chain that runs into a cycle it is not part of (entry first in document order)
+        tail = [f'e{j}' for j in range(rng.randint(1, 2))]
+        chain = tail + ids
+        body = ''.join(G(chain[j], f' xlink:href="#{chain[j + 1] if j + 1 < len(chain) else ids[0]}"') for j in range(len(chain)))
+        return HEAD + f'<defs>{body}</defs><rect width="9" height="9" fill="url(#e0)"' + rng.choice(['', ' transform="scale(2)"']) + '/></svg>'
     if k == 2:   # gradient href cycle of length L
-        body = ''.join(G(ids[j], f' xlink:href="#{ids[(j + 1) % L]}"') for j in range(L))
+        body = ''.join(G(ids[j], f' xlink:href="{pad("#" + ids[(j + 1) % L])}"') for j in range(L))
         return HEAD + f'<defs>{body}</defs><rect width="9" height="9" fill="url(#n0)"' + rng.choice(['', ' transform="scale(2)"']) + '/></svg>'
     if k == 3:   # use of an ancestor
-        return HEAD + '<g id="a"><rect width="2" height="2"/><g><g><use xlink:href="#a"/></g></g></g></svg>'
+        return HEAD + f'<g id="a"><rect width="2" height="2"/><g><g><use xlink:href="{pad("#a")}"/></g></g></g></svg>'
     if k == 4:   # dangling references
         what = rng.choice(['<use xlink:href="#nope"/>', '<rect width="9" height="9" fill="url(#nope)"/>', '<rect width="9" height="9" clip-path="url(#nope)"/>',
                            '<defs>' + G('g', ' xlink:href="#nope"') + '</defs><rect width="9" height="9" fill="url(#g)"/>', '<use xlink:href="http://x/y#z"/>', '<use/>'])
